@@ -44,6 +44,12 @@ CHECKS.update({
         "All legal parameter-kind sequences up to length 3 (quick) / 5 (thorough) with every legal default placement on five kinds of holder, plus random signatures with literal and non-literal defaults and odd receivers, are compared parameter by parameter (names, order, default values as evaluated by Python, passing kind, optionality) in stub and API JSON.",
         "§5 C06",
     ),
+    "C20": (
+        "E1 package engine",
+        "property-based testing: Hypothesis-drawn declarations carrying random subsets of the flagged features in permuted order; oracle = marker classes expected from each declaration's own generated features",
+        "Declarations (functions, methods, constructors, attributes, properties, classes with 0-3 bases) draw flagged and unflagged constructs independently; the set of marker classes in the comment block in front of every stub declaration must equal the set derived from that declaration alone, so missing markers and markers leaking to neighbours are both seen.",
+        "§5 C20",
+    ),
 })
 
 NOT_YET = "check not built yet in this session (work in progress, see DESIGN.md §9)"
